@@ -741,6 +741,12 @@ func (f *Frame) contractCall(c *ssa.CallCommon, ct *FuncContract, callee *ssa.Fu
 		if len(e.Ghost) > 0 || mentions(e.Term, ghostNames) {
 			continue
 		}
+		if isSelfReturn(e.Term) {
+			// "the receiver / argument itself is returned" is a frame fact: it holds whether or not the
+			// functional preconditions do
+			ex.assume(implies(f.pc, substSX(e.Term, envPost)))
+			continue
+		}
 		ex.assume(implies(and(f.pc, preHolds), substSX(e.Term, envPost)))
 	}
 	nf := true
@@ -1033,4 +1039,17 @@ func (f *Frame) runDefers() {
 			f.pc = ex.def(f.pfx+"pc", "Bool", or(skip, ran))
 		}
 	}
+}
+
+// isSelfReturn recognises clauses of the form (= result x) / (= result.N x) with x a plain name.
+func isSelfReturn(t *SX) bool {
+	if !t.IsL || len(t.List) != 3 || t.List[0].IsL || t.List[0].Atom != "=" {
+		return false
+	}
+	a, b := t.List[1], t.List[2]
+	if a.IsL || b.IsL {
+		return false
+	}
+	isRes := func(s string) bool { return s == "result" || strings.HasPrefix(s, "result.") }
+	return (isRes(a.Atom) && !isRes(b.Atom) && !strings.HasPrefix(b.Atom, "$")) || (isRes(b.Atom) && !isRes(a.Atom) && !strings.HasPrefix(a.Atom, "$"))
 }
